@@ -504,13 +504,14 @@ def disable_lines():
     _line_state['on'] = False
 
 
-def explore_dfs(ctx, causes, bound, base, limit, pending_binary=False):
+def explore_dfs(ctx, causes, bound, base, limit, pending_binary=False,
+                line_level=False):
     choices = []
     n = 0
     while choices is not None and n < limit and not ctx.out_of_time() \
             and not ctx.too_many_violations():
-        trace, res = run_schedule(ctx, causes, choices, None, bound, False,
-                                  base, pending_binary)
+        trace, res = run_schedule(ctx, causes, choices, None, bound,
+                                  line_level, base, pending_binary)
         n += 1
         choices = SC.next_schedule(trace)
     return n, choices is None
@@ -576,6 +577,22 @@ def run(ctx):
                     '+'.join(causes) + (' (partial binary packet)' if pb
                                         else '') + ' <=%d' % bound] = {
                     'schedules': n, 'complete': complete}
+    # statement level (every statement start of server.py, base_manager.py,
+    # manager.py is a pre-emption point): all schedules with at most one
+    # pre-emption for every pair - windows inside a single manager method
+    ctx.extra['statement_level_bounded'] = {}
+    for i, causes in enumerate(pairs):
+        if i % ctx.nshards != ctx.shard and ctx.nshards > 1:
+            continue
+        if ctx.out_of_time() or ctx.time_left() < ctx.budget * 0.45:
+            break
+        n, complete = explore_dfs(ctx, list(causes), 1, base,
+                                  350 if ctx.tier == 'quick' else 20000,
+                                  line_level=True)
+        ctx.count('statement_level_bounded_schedules', n)
+        ctx.count('line_level_schedules', n)
+        ctx.extra['statement_level_bounded']['+'.join(causes)] = {
+            'schedules': n, 'complete': complete}
     # a half-received binary packet is pending while the client is terminated
     for causes in (['server_disconnect', 'transport_loss'],):
         if ctx.shard == 0 and not ctx.out_of_time():
